@@ -162,6 +162,34 @@ def sweep(tier, only=None):
     open(os.path.join(VERIF, "seeded", "RESULTS-%s.md" % tier), "w").write("\n".join(lines) + "\n")
 
 
+def results(tier="quick"):
+    """seeded/RESULTS-<tier>.md from the latest verdict recorded next to every seed (seeded/*/meta.json `checked`)."""
+    lines = ["# Seeded changes vs checks (tier: %s)\n" % tier,
+             "The latest verdict recorded for every kept change (`seedtool.py run|sweep` writes it into the seed's meta.json).",
+             "Each change was produced by an independent sub-agent given only the property text, confirmed in a scratch",
+             "worktree of the base commit (demo fails with it, passes without, suite passes), then applied to /repo,",
+             "checked and reverted.\n",
+             "| seed | summary | check | result |", "|---|---|---|---|"]
+    n = det = 0
+    for sid in sorted(os.listdir(os.path.join(VERIF, "seeded"))):
+        d = os.path.join(VERIF, "seeded", sid)
+        if not os.path.isdir(d):
+            continue
+        meta = json.load(open(os.path.join(d, "meta.json")))
+        ch = (meta.get("checked") or {}).get(tier) or {}
+        own = meta["property"]
+        for pid in [own] + sorted(p for p in ch if p != own):
+            if pid not in ch:
+                continue
+            verdict = {1: "DETECTED", 0: "missed", 2: "machinery"}.get(ch[pid], str(ch[pid]))
+            lines.append("| %s | %s | %s %s | %s |" % (sid, (meta.get("summary") or "")[:110].replace("|", "/").replace("\n", " "), pid, tier, verdict))
+        n += 1
+        det += 1 if ch.get(own) == 1 else 0
+    lines.append("\n%d seeded changes; %d detected by their own property's %s check." % (n, det, tier))
+    open(os.path.join(VERIF, "seeded", "RESULTS-%s.md" % tier), "w").write("\n".join(lines) + "\n")
+    print(lines[-1].strip())
+
+
 def matrix():
     """Markdown table for DESIGN.md from the verdicts recorded in seeded/*/meta.json."""
     rows = ["| seed | change (one line) | needs | quick tier verdicts (property: detected / missed) |", "|---|---|---|---|"]
@@ -192,6 +220,9 @@ def matrix():
 if __name__ == "__main__":
     if sys.argv[1] == "matrix":
         print(matrix())
+        sys.exit(0)
+    if sys.argv[1] == "results":
+        results(sys.argv[2] if len(sys.argv) > 2 else "quick")
         sys.exit(0)
     if sys.argv[1] == "sweep":
         sweep(sys.argv[2] if len(sys.argv) > 2 else "quick", sys.argv[3:] or None)
